@@ -146,7 +146,14 @@ static inline FlexPath* gen_simple_path(Rng& g, const GenOpts& o) {
 
 static inline Label* gen_label(Rng& g, const GenOpts& o) {
     Label* l = (Label*)allocate_clear(sizeof(Label));
-    l->init(rand_name(g, 12).c_str());
+    if (g.below(300) == 0) {
+        // a text that fills a record: 65527 .. 65529 bytes give STRING records of 65532 and 65534 bytes, the largest an even-length
+        // record can be (the readers' buffer holds 65537)
+        std::string big((size_t)(65527 + g.below(3)), 'x');
+        for (size_t i = 0; i < big.size(); i += 97) big[i] = (char)('A' + (i / 97) % 26);
+        l->init(big.c_str());
+    } else
+        l->init(rand_name(g, 12).c_str());
     l->tag = make_tag((uint32_t)g.below(60), (uint32_t)g.below(60));
     l->origin = Vec2{((double)g.range(-o.coord_range, o.coord_range) + qfrac(g, o)) * o.grid, ((double)g.range(-o.coord_range, o.coord_range) + qfrac(g, o)) * o.grid};
     static const Anchor as[] = {Anchor::NW, Anchor::N, Anchor::NE, Anchor::W, Anchor::O, Anchor::E, Anchor::SW, Anchor::S, Anchor::SE};
@@ -191,7 +198,8 @@ static inline Library gen_library(Rng& g, const GenOpts& o) {
         Cell* cell = (Cell*)allocate_clear(sizeof(Cell));
         std::string nm;
         do {
-            nm = rand_name(g, 10);
+            // now and then the empty name (a STRNAME record without payload): every reader has to take it
+            nm = g.chance(4) ? std::string() : rand_name(g, 10);
         } while (lib.get_cell(nm.c_str()) != NULL);
         cell->name = dupstr(nm);
         int ne = (int)g.below(o.max_elems + 1);
@@ -230,7 +238,7 @@ static inline Library gen_library(Rng& g, const GenOpts& o) {
                 if (c > 0 && g.chance(85))
                     r = gen_reference(g, o, lib.cell_array[g.below(c)], NULL);
                 else
-                    r = gen_reference(g, o, NULL, ("EXT_" + rand_name(g, 5)).c_str());
+                    r = gen_reference(g, o, NULL, g.chance(6) ? "" : ("EXT_" + rand_name(g, 5)).c_str());
                 if (o.with_props) add_gds_props(g, r->properties);
                 if (o.with_reps && g.chance(40)) gen_repetition(g, o, r->repetition);
                 cell->reference_array.append(r);
